@@ -1,18 +1,27 @@
-"""C08 — parsing follows grammar, layout and fixity rules (infix re-association part).
+"""C08 — parsing follows the documented grammar, layout and fixity rules.
 
 T: coq/gen/OpTableGen.v regenerated from parser/src/infix.rs (const OPS + lookup rule).
-Proofs: coq/theories/Props/C08.v.
-C: extracted `reparse_named` vs parse + rename + metadata + reparse_infix of the real
-   pipeline on exhaustive and random operator chains.
+Proofs: coq/theories/Props/C08.v (infix re-association model; span and layout validators).
+Ties:
+  correspondence:infix-reparse   extracted `reparse_named` vs parse + rename + metadata + reparse_infix of the
+                                 real pipeline on exhaustive and random operator chains (harness c08)
+  correspondence:roundtrip       generated ASTs printed in four concrete styles, parsed by the real parser
+                                 (+ metadata + reparse_infix) and rendered canonically, against the canonical
+                                 rendering of the generated AST (harness c08rt)
+  validator:spans                extracted `spans_ok` (proved sound) on every parsed tree of the round trip and
+                                 on every .glu file of the repository
+  validator:layout               extracted `layout_ok` (proved sound) on the real raw / layout token streams of
+                                 every generated source and of every .glu file
 """
 import json
 import os
+import re
 
 from . import common
 
 
 def tie(ctx, tier_override=None, tag="tie"):
-    """Run the correspondence; returns (ran, n_cases, diffs)."""
+    """Run the infix correspondence; returns (ran, n_cases, diffs)."""
     out_dir = os.path.join(ctx.run_dir, tag)
     os.makedirs(out_dir, exist_ok=True)
     if not ctx.build_harness("c08"):
@@ -45,8 +54,174 @@ def tie(ctx, tier_override=None, tag="tie"):
     ctx.coverage["samples"] = [
         {"source": cases[i], "model": mo[i]} for i in (5, 100, len(cases) // 2, len(cases) - 1) if i < len(cases)
     ]
+    ctx.coverage.setdefault("ties", {})["infix-reparse"] = {
+        "cases": n, "disagreements": len(diffs), "distinct_nontrivial": stats["distinct_nontrivial"],
+        "exhaustive_user_maxlen": stats["exhaustive_user_maxlen"], "input_distribution": stats["hist"]}
     res = [(cases[i] if i < len(cases) else "?", m, im) for (i, m, im) in diffs]
     return True, n, res
+
+
+# ---------------------------------------------------------------------------------------------------
+# round trip + validators (harness c08rt, model coq/extract/c08rt)
+
+def _span_key(line, case):
+    # `fail <why> <lo> <hi> <leaf>`: name the class of node that is wrong
+    parts = line.split()
+    why = parts[1] if len(parts) > 1 else "?"
+    leaf = parts[4] if len(parts) > 4 else "-"
+    cls = "node"
+    if leaf.startswith("i:"):
+        try:
+            name = bytes.fromhex(leaf[2:]).decode("utf-8", "replace")
+        except ValueError:
+            name = "?"
+        if name.startswith("#"):
+            cls = "builtin-operator"  # `#Int+` and friends
+        elif name[:1].isalpha() or name[:1] == "_":
+            cls = "identifier"
+        else:
+            cls = "operator"
+    elif leaf.startswith("n:"):
+        cls = "int-literal"
+    elif leaf.startswith("b:"):
+        cls = "byte-literal"
+    elif leaf in ("s", "c", "f"):
+        cls = {"s": "string-literal", "c": "char-literal", "f": "float-literal"}[leaf]
+    return "spans:%s:%s" % (why, cls)
+
+
+def _case_of(caseline):
+    parts = caseline.split("\t")
+    if parts and parts[0] == "gen" and len(parts) >= 3:
+        return {"kind": "generated", "style": parts[1], "source": json.loads(parts[2])}
+    if parts and parts[0] == "file" and len(parts) >= 2:
+        return {"kind": "file", "path": parts[1]}
+    return {"kind": "?", "raw": caseline[:500]}
+
+
+def rt(ctx, tier_override=None, tag="rt", extra=()):
+    """Round trip + span validator + layout validator.  Returns dict or None when it could not run."""
+    out_dir = os.path.join(ctx.run_dir, tag)
+    os.makedirs(out_dir, exist_ok=True)
+    if not ctx.build_harness("c08rt"):
+        return None
+    model = ctx.build_model("c08rt")
+    if model is None:
+        return None
+    saved = ctx.tier
+    if tier_override:
+        ctx.tier = tier_override
+    rc, out = ctx.run_harness("c08rt", out_dir=out_dir, extra=list(extra))
+    ctx.tier = saved
+    if rc != 0:
+        ctx.log("harness c08rt failed:", out[-500:])
+        ctx.harness_crash = out[-1500:]
+        return None
+    stats = json.load(open(os.path.join(out_dir, "stats.json")))
+    res = {"stats": stats, "out_dir": out_dir}
+    # 1. round trip
+    n, diffs = common.diff_lines(os.path.join(out_dir, "rt_expected.txt"), os.path.join(out_dir, "rt_impl.txt"), limit=100000)
+    fails = [json.loads(l) for l in common.read_lines(os.path.join(out_dir, "rt_fail.jsonl")) if l.strip()]
+    res["rt_n"], res["rt_diffs"], res["rt_fails"] = n, diffs, fails
+    # 2. + 3. validators
+    for name, inp, cases in (("span", "span_in.txt", "span_cases.txt"), ("lay", "lay_in.txt", "lay_cases.txt")):
+        outp = os.path.join(out_dir, name + "_out.txt")
+        ok = ctx.run_model(model, os.path.join(out_dir, inp), outp)
+        lines = common.read_lines(outp) if ok else []
+        cl = common.read_lines(os.path.join(out_dir, cases))
+        bad = [(i, l, cl[i] if i < len(cl) else "?") for i, l in enumerate(lines) if l != "ok"]
+        res[name + "_ran"] = ok and len(lines) == len(cl)
+        res[name + "_n"] = len(lines)
+        res[name + "_bad"] = bad
+    return res
+
+
+def report_rt(ctx, res, record=True):
+    """Turn the result of rt() into obligations / coverage / violations.  Returns number of failing inputs."""
+    stats = res["stats"]
+    nviol = 0
+    # ---- round trip
+    n, diffs, fails = res["rt_n"], res["rt_diffs"], res["rt_fails"]
+    if record:
+        ctx.obligations.append(common.Obligation(
+            "correspondence:roundtrip", "correspondence", n > 0 and not diffs,
+            "%d (program, style) cases over %d generated programs (size <= %d, 4 styles), %d disagreements"
+            % (n, stats["programs"], stats["max_size"], len(diffs))))
+        ctx.coverage["evaluations"] = ctx.coverage.get("evaluations", 0) + stats["evaluations"]
+        ctx.coverage["distinct_nontrivial"] = ctx.coverage.get("distinct_nontrivial", 0) + stats["distinct_nontrivial"]
+        ctx.coverage["traces_validated_against_impl"] = ctx.coverage.get("traces_validated_against_impl", 0) + n + res["span_n"] + res["lay_n"]
+        ctx.coverage.setdefault("ties", {})["roundtrip"] = {
+            "cases": n, "programs": stats["programs"], "max_size": stats["max_size"], "disagreements": len(diffs),
+            "distinct_nontrivial": stats["distinct_nontrivial"], "rule": stats["rule"], "input_distribution": stats["hist"]}
+        cases = common.read_lines(os.path.join(res["out_dir"], "rt_cases.txt"))
+        exp = common.read_lines(os.path.join(res["out_dir"], "rt_expected.txt"))
+        samples = []
+        for i in (7, len(cases) // 3 + 1, len(cases) // 2 + 2, len(cases) - 1):
+            if 0 <= i < len(cases):
+                st, con, src = cases[i].split("\t", 2)
+                samples.append({"style": st, "construct": con, "source": json.loads(src), "tree": exp[i][:600]})
+        ctx.coverage["samples"] = ctx.coverage.get("samples", []) + samples
+    seen = set()
+    for f in fails:
+        if f["key"] in seen:
+            continue
+        seen.add(f["key"])
+        nviol += 1
+        ctx.violation(
+            f["key"],
+            "a program printed in style %s does not parse back to its tree (minimised: %s)" % (f["style"], f["key"].split(":", 2)[2]),
+            case={"source": f["source"], "original_source": f.get("original_source")},
+            expected=f["expected"], observed=f["observed"])
+    if diffs and not fails:
+        # harness did not shrink (should not happen): report the raw case
+        i, e, o = diffs[0]
+        nviol += 1
+        ctx.violation("roundtrip:case-%d" % i, "round trip disagreement", case={"index": i}, expected=e, observed=o)
+    # ---- spans
+    bad = res["span_bad"]
+    if record:
+        ctx.obligations.append(common.Obligation(
+            "validator:spans", "correspondence", res["span_ran"] and not bad,
+            "spans_ok on %d parsed trees (%d nodes, %d identifier/integer leaves; %d of %d .glu files parsed), %d rejected"
+            % (res["span_n"], stats["span_nodes"], stats["span_leaves_checked"], stats["glu_files_parsed"], stats["glu_files"], len(bad))))
+        ctx.coverage["ties"]["spans"] = {
+            "trees": res["span_n"], "nodes": stats["span_nodes"], "leaves_with_text_check": stats["span_leaves_checked"],
+            "glu_files": stats["glu_files"], "glu_files_parsed": stats["glu_files_parsed"], "rejected": len(bad)}
+    seen = set()
+    for (i, line, cl) in bad:
+        key = _span_key(line, cl)
+        if key in seen:
+            continue
+        seen.add(key)
+        nviol += 1
+        n_same = sum(1 for (_, l2, c2) in bad if _span_key(l2, c2) == key)
+        ctx.violation(key, "span checker rejects a tree of the real parser: %s (%d trees rejected for this reason)" % (line, n_same),
+                      case=_case_of(cl), expected="ok", observed=line)
+        if len(seen) >= 10:
+            break
+    # ---- layout
+    bad = res["lay_bad"]
+    if record:
+        ctx.obligations.append(common.Obligation(
+            "validator:layout", "correspondence", res["lay_ran"] and not bad,
+            "layout_ok on %d (raw, layout) token stream pairs (%d clean runs with balance/position checks, %d virtual block tokens in generated sources), %d rejected"
+            % (res["lay_n"], stats["layout_streams_clean"], stats["layout_virtual_tokens_generated"], len(bad))))
+        ctx.coverage["ties"]["layout"] = {
+            "streams": res["lay_n"], "clean": stats["layout_streams_clean"],
+            "virtual_block_tokens_generated": stats["layout_virtual_tokens_generated"], "rejected": len(bad)}
+    seen = set()
+    for (i, line, cl) in bad:
+        c = _case_of(cl)
+        what = line.split()[1] if len(line.split()) > 1 else line
+        key = "layout:%s:%s" % (what, c.get("path", c.get("style", "?")))
+        if key in seen:
+            continue
+        seen.add(key)
+        nviol += 1
+        ctx.violation(key, "layout checker rejects the real layout output: " + line, case=c, expected="ok", observed=line)
+        if len(seen) >= 10:
+            break
+    return nviol
 
 
 def run(ctx):
@@ -57,30 +232,69 @@ def run(ctx):
                                              "%d cases, %d disagreements" % (n, len(diffs))))
     ctx.trusted.append("translator harness/src/tr/optable.rs (syn): const OPS and the shape of OpTable::get")
     ctx.trusted.append("harness/src/bin/c08.rs: chain generator, Gluon printer, AST/err canonicaliser; coq/extract/c08/driver.ml operand substitution")
+    ctx.trusted.append("harness/src/bin/c08rt/: AST generator, the four-style printer, canonical renderers of the generated and of the "
+                       "parsed tree, span tree exporter (children in source order, leaf classes), token kind numbering; "
+                       "coq/extract/c08rt/driver.ml (text <-> extracted data types)")
     ctx.assumptions.append("the LALRPOP grammar is not modelled: the right-nested Infix spine the model starts from is the one the real parser produced")
     ctx.assumptions.append("operator names are ASCII (is_alphanumeric modelled for ASCII only)")
+    ctx.assumptions.append("round trip: decided on the implementation for the generated programs (not proved); the parser is "
+                           "parse_partial_root_expr + metadata + reparse_infix, without macro expansion and renaming")
+    ctx.assumptions.append("layout: the validator checks the real layout output (token preservation, balance, positions); "
+                           "the layout algorithm itself is not modelled")
     for (src, m, im) in diffs[:10]:
         # By C08_reparse_unique_grouping the model's tree is the only well-bracketed tree of the
         # chain, so a different answer of the implementation is a wrong grouping / wrong error.
         ctx.violation("infix:" + src, "operator chain `%s` is grouped as %s, the fixity rules dictate %s" % (src, im, m),
                       case={"source": src}, expected=m, observed=im)
+
+    res = rt(ctx)
+    rt_viol = 0
+    if res is None:
+        for nm in ("correspondence:roundtrip", "validator:spans", "validator:layout"):
+            ctx.obligations.append(common.Obligation(nm, "correspondence", False, "could not run: %s" % getattr(ctx, "build_error", getattr(ctx, "harness_crash", "?"))[:300]))
+    else:
+        rt_viol = report_rt(ctx, res)
+
     broken = [o for o in ctx.obligations if not o.ok and o.kind in ("theorem", "translator", "audit")]
-    if (broken or not ran) and not diffs:
-        # search: widen to the thorough generator
+    could_not_run = (not ran) or res is None
+    if (broken or could_not_run) and not diffs and not rt_viol:
+        # search: widen to the thorough generators
         found = []
+        nfound = 0
         if ran and ctx.tier != "thorough":
             ran2, n2, found = tie(ctx, tier_override="thorough", tag="search")
             for (src, m, im) in found[:10]:
                 ctx.violation("infix:" + src, "operator chain `%s` is grouped as %s, the fixity rules dictate %s" % (src, im, m),
                               case={"source": src}, expected=m, observed=im)
-        if not found:
-            names = [o.name for o in broken] or ["correspondence:infix-reparse (could not run: %s)" % getattr(ctx, "build_error", getattr(ctx, "harness_crash", "?"))[:300]]
+        if res is not None and ctx.tier != "thorough":
+            res2 = rt(ctx, tier_override="thorough", tag="search-rt")
+            if res2 is not None:
+                nfound = report_rt(ctx, res2, record=False)
+        if not found and not nfound:
+            names = [o.name for o in broken]
+            if could_not_run:
+                names.append("correspondence:%s (could not run: %s)" % ("infix-reparse" if not ran else "roundtrip",
+                                                                      getattr(ctx, "build_error", getattr(ctx, "harness_crash", "?"))[:300]))
             for nm in names[:5]:
                 ctx.violation("obligation:" + nm, "obligation no longer checks: " + nm, obligation=nm, no_input=True,
                               extra={"detail": [o.detail for o in broken if o.name == nm]})
 
 
 def replay(ctx, path):
+    v = json.load(open(path))
+    key = v.get("key", "")
+    if re.match(r"^(roundtrip|spans|layout):", key):
+        if not ctx.build_harness("c08rt"):
+            return 2
+        case = v.get("case") or {}
+        if case.get("kind") == "file":
+            # re-run the harness on the single file through the probe
+            rc, out = common.sh("%s probe < %s" % (ctx.harness_bin("c08rt"), case["path"]))
+            print(out[-4000:])
+            return 0
+        rc, out = common.sh([ctx.harness_bin("c08rt"), "--replay", path])
+        print(out)
+        return 0
     if not ctx.build_harness("c08"):
         return 2
     rc, out = common.sh([ctx.harness_bin("c08"), "--replay", path])
